@@ -63,6 +63,12 @@ def rc_uses_tag(st, tag):
     return walk(st)
 
 
+def _uses_mod(st):
+    def walk(e):
+        return isinstance(e, list) and ((len(e) >= 4 and e[0] == "b" and e[1] in ("%", "mod", "remainder")) or any(walk(x) for x in e if isinstance(x, list)))
+    return walk(st)
+
+
 def explain_dev(case, backend, i):
     """name of the deviation model that applies at step i for this backend (naming only;
     whether it explains the observed result is decided by comparing with the model's table)"""
@@ -94,6 +100,8 @@ def explain_dev(case, backend, i):
             return "polars_full_join_right_key_lost"
     if backend in ("sqlite", "pg"):
         if op == "extend":
+            if _uses_mod(st):
+                return "sqlite_mod_truncates" if backend == "sqlite" else "pg_mod_truncates"
             if rc_uses_tag(st, "uq"):
                 return "sql_round_half_away"
             if backend == "pg" and rc_uses_tag(st, "nan"):
